@@ -17,6 +17,14 @@ func Replay(prop, path string) int {
 	if p, ok := histProps[prop]; ok {
 		return replayHist(p, path)
 	}
-	fmt.Println("replay not implemented for", prop)
-	return 2
+	// the non-history checks are complete enumerations of small finite spaces that run in seconds to
+	// a minute: their replay re-runs the quick enumeration and reports whether the recorded signature
+	// still occurs (the replay file names the failing case and signature)
+	f, ok := Registry[prop]
+	if !ok {
+		fmt.Println("unknown property", prop)
+		return 2
+	}
+	fmt.Printf("replay of %s: re-running the quick enumeration of %s (the file identifies the failing case)\n", path, prop)
+	return f("quick")
 }
